@@ -8,6 +8,17 @@ Proof.
   intros H Hn. apply (Permutation_NoDup (Permutation_cons_append l x)). now constructor.
 Qed.
 
+Lemma NoDup_app_remove_aux {A} (l1 l2 : list A) :
+  NoDup (l1 ++ l2) -> NoDup l1 /\ NoDup l2 /\ (forall x, In x l1 -> ~ In x l2).
+Proof.
+  induction l1 as [|a l1 IH]; simpl; intros H.
+  - split; [constructor|]. split; [assumption|tauto].
+  - inversion H as [|? ? Hn Hnd]; subst. destruct (IH Hnd) as (H1 & H2 & H3). split; [|split].
+    + constructor; [|assumption]. intros Hc. apply Hn. apply in_app_iff. now left.
+    + assumption.
+    + intros x [->|Hx]; [intros Hc; apply Hn; apply in_app_iff; now right | now apply H3].
+Qed.
+
 (** * Association lists *)
 Section Alist.
 Context {A : Type}.
@@ -352,4 +363,84 @@ Proof.
     + now rewrite <- app_assoc.
     + rewrite app_length. simpl. now rewrite Nat.add_1_r.
     + rewrite app_length. simpl. now rewrite Nat.add_1_r, <- plus_n_Sm.
+Qed.
+
+(** * Labels *)
+
+(** Contract of [np.argsort]: the answer is a permutation of the positions that sorts the input. *)
+Definition argsort_ok (argsort : list Z -> list nat) : Prop :=
+  forall l, Permutation (argsort l) (seq 0 (length l)) /\
+            forall a b, a <= b -> b < length l ->
+                        (nth (nth a (argsort l) 0%nat) l 0 <= nth (nth b (argsort l) 0%nat) l 0)%Z.
+
+Lemma map_nth_seq {A} (l : list A) d : map (fun i => nth i l d) (seq 0 (length l)) = l.
+Proof.
+  induction l as [|a l IH]; simpl; [reflexivity|]. f_equal.
+  rewrite <- seq_shift, map_map. exact IH.
+Qed.
+
+Lemma map_nth_perm {A} (l : list A) d index :
+  Permutation index (seq 0 (length l)) -> Permutation (map (fun i => nth i l d) index) l.
+Proof.
+  intros H. apply (Permutation_map (fun i => nth i l d)) in H. now rewrite map_nth_seq in H.
+Qed.
+
+Definition negsizes (st : cstate) : list Z := map (fun c => (- Z.of_nat (length c))%Z) (map snd st).
+
+(** The cluster dict in label order. *)
+Definition pstate (argsort : list Z -> list nat) (st : cstate) (sort : bool) : cstate :=
+  if sort then map (fun i => nth i st (0, [])) (argsort (negsizes st)) else st.
+
+Lemma pstate_perm argsort st sort : argsort_ok argsort -> Permutation (pstate argsort st sort) st.
+Proof.
+  intros H. unfold pstate. destruct sort; [|reflexivity]. apply map_nth_perm.
+  destruct (H (negsizes st)) as [H1 _]. unfold negsizes in H1 at 2. now rewrite !map_length in H1.
+Qed.
+
+Lemma get_labels_labels argsort D st sort ret labels od :
+  get_labels argsort D st sort ret = Ok (labels, od) ->
+  labels = labels_of (S (length D)) (map snd (pstate argsort st sort)).
+Proof.
+  unfold get_labels, pstate, negsizes. intros H.
+  assert (E : (if sort then map (fun i => nth i (map snd st) []) (argsort (map (fun c => (- Z.of_nat (length c))%Z) (map snd st)))
+               else map snd st) =
+              map snd (if sort then map (fun i => nth i st (0, [])) (argsort (map (fun c => (- Z.of_nat (length c))%Z) (map snd st))) else st)).
+  { destruct sort; [|reflexivity]. rewrite map_map. apply map_ext. intros i.
+    change (@nil nat) with (snd (0, @nil nat)). apply map_nth. }
+  rewrite E in H. clear E.
+  destruct ret.
+  - match type of H with match ?X with _ => _ end = _ => destruct X end; [|discriminate]. now inversion H.
+  - now inversion H.
+Qed.
+
+Definition cpart (n : nat) (D : dendrogram) (pst : cstate) : Prop :=
+  NoDup (akeys pst) /\
+  (forall k c, In (k, c) pst -> c = leaves n D k /\ c <> []) /\
+  Permutation (concat (map snd pst)) (seq 0 n).
+
+Lemma cinv_cpart n D t st pst : cinv n D t st -> Permutation pst st -> cpart n D pst.
+Proof.
+  intros (H1 & H2 & H3) P. split; [|split].
+  - apply (Permutation_map fst) in P. symmetry in P. exact (Permutation_NoDup P H1).
+  - intros k c H. apply (Permutation_in _ P) in H. destruct (H2 k c H) as (_ & Ha & Hb). now split.
+  - rewrite <- H3. apply Permutation_concat, Permutation_map, P.
+Qed.
+
+Lemma label_of_none cs b v acc : (forall c, In c cs -> ~ In v c) -> label_of cs b v acc = acc.
+Proof.
+  revert b acc. induction cs as [|c cs IH]; intros b acc H; simpl; [reflexivity|].
+  rewrite IH by (intros c' Hc'; apply H; now right).
+  destruct (memn v c) eqn:E; [|reflexivity]. apply memn_In in E. exfalso. apply (H c); [now left | exact E].
+Qed.
+
+Lemma label_of_spec cs : NoDup (concat cs) ->
+  forall l v b acc, l < length cs -> In v (nth l cs []) -> label_of cs b v acc = b + l.
+Proof.
+  induction cs as [|c cs IH]; intros Hnd l v b acc Hl Hv; simpl in *; [lia|].
+  apply NoDup_app_remove_aux in Hnd. destruct Hnd as (Hndc & Hndcs & Hdisj).
+  destruct l as [|l].
+  - rewrite label_of_none.
+    + assert (E : memn v c = true) by now apply memn_In. rewrite E. lia.
+    + intros c' Hc' Hvc'. apply (Hdisj v Hv). apply in_concat. now exists c'.
+  - rewrite (IH Hndcs l v (S b)); [lia | lia | exact Hv].
 Qed.
